@@ -1,0 +1,41 @@
+//go:build verif
+
+// Contracts for package grpc (gRPC scenario ammo decoding), checked by /verif/govc. Comment-only: no code.
+package grpc
+
+// A scenario's call list in the written order: name(n) adds the call n times, name(n, ms) with a pause after each,
+// sleep(ms) adds to the pause of the call before it; unknown calls and a sleep with no call before it are errors, never faults.
+//@ global iterOf map[IteratorIniter]int
+//@ iface IteratorIniter.InitIterator
+//@ modifies iterOf[self]
+
+//@ func convertScenarioToAmmo
+//@ props C13 C20 C16
+//@ nilsafe
+//@ loop 0 invariant [earlier-steps-parsed] imp(calls(config.ParseShootName) > 0, result_of(config.ParseShootName, 3) == nil)
+//@ loop 0 invariant result != nil && result.Name == sc.Name && len(result.Calls) >= 0
+//@ loop 1 invariant result != nil
+//@ loop 1 step [the-call-is-appended-once-per-repetition] len(result.Calls) == iter(len(result.Calls)) + 1 && result.Calls[len(result.Calls)-1] == r
+//@ at call convertConfigToStep assert [the-call-of-that-name] arg(req) == reqs[result_of(config.ParseShootName, 0)] && has(reqs, result_of(config.ParseShootName, 0))
+//@ ensures [well-formed] imp(result1 == nil, result0 != nil && result0.Name == sc.Name)
+//@ ensures [bad-step-is-an-error] imp(calls(config.ParseShootName) > 0 && result_of(config.ParseShootName, 3) != nil, result1 != nil)
+
+//@ func convertConfigToStep
+//@ props C13 C20
+//@ nilsafe
+//@ modifies iterOf
+//@ loop 0 invariant len(preprocessors) == len(req.Preprocessors) && forall(k, 0, rangeidx, preprocessors[k] == req.Preprocessors[k])
+//@ ensures [fields-as-configured] result.Name == req.Name && result.Tag == req.Tag && result.Call == req.Call && result.Metadata == req.Metadata
+//@ ensures [payload-of-the-configured-text] len(result.Payload) == len(req.Payload)
+//@ ensures [processors-in-the-configured-order] len(result.Preprocessors) == len(req.Preprocessors) && forall(k, 0, len(req.Preprocessors), result.Preprocessors[k] == req.Preprocessors[k]) && len(result.Postprocessors) == len(req.Postprocessors)
+
+// Scenarios are listed weight/gcd times each, in the order of the description.
+//@ func decodeAmmo
+//@ props C13 C20
+//@ nilsafe
+//@ requires cfg != nil
+//@ loop 0 invariant callRegistry != nil
+//@ loop 1 invariant scenarioRegistry != nil
+//@ loop 2 invariant forall(k, 0, len(result), result[k] != nil)
+//@ loop 3 invariant forall(k, 0, len(result), result[k] != nil) && a != nil
+//@ ensures [no-nil-scenario] imp(result1 == nil, forall(k, 0, len(result0), result0[k] != nil))
